@@ -34,6 +34,7 @@ extern char **environ;
 #define MAXH 5
 static reproc_t *H[MAXH];
 static int Hpid[MAXH];          /* sim pid of the child started for handle h (0 = none) */
+static int pending_term[MAXH];
 static long woff[MAXH];         /* stdin bytes accepted so far (parent -> child) */
 static long coff[MAXH][3];      /* bytes the child wrote so far with tag 1 / 2 */
 static long roff[MAXH][3];      /* bytes delivered to the parent per tag */
@@ -71,6 +72,7 @@ static jv *verdict_base(int ok)
 }
 
 static jv *cur_call;
+static jv *cur_keys;
 static jv *trace;  /* array of observed records when --trace */
 
 static void diverge(const char *kind, const char *key, jv *exp, jv *obs)
@@ -80,6 +82,7 @@ static void diverge(const char *kind, const char *key, jv *exp, jv *obs)
   j_put(v, "step", j_mkint(pos));
   if (cur_call) { j_put(v, "fn", j_mkstr(j_str(cur_call, "fn", "?"))); j_put(v, "call", cur_call); }
   if (key) j_put(v, "key", j_mkstr(key));
+  if (cur_keys) j_put(v, "keys", cur_keys);
   if (exp) j_put(v, "exp", exp);
   if (obs) j_put(v, "obs", obs);
   if (trace) j_put(v, "trace", trace);
@@ -90,7 +93,13 @@ static void diverge(const char *kind, const char *key, jv *exp, jv *obs)
 /* ---------- environment steps ---------- */
 static int child_of(int h)
 {
-  if (h <= 0 || h >= MAXH || !Hpid[h]) return -1;
+  if (h <= 0 || h >= MAXH) return -1;
+  if (!Hpid[h]) {
+    /* reproc_run: the handle is internal; the child is the process forked during the call made for index h */
+    for (int i = 1; i < SK_MAXPROC; i++)
+      if (K->proc[i].state != PS_FREE && K->proc[i].handle == h) { Hpid[h] = K->proc[i].pid; K->proc[i].term = pending_term[h]; }
+    if (!Hpid[h]) return -1;
+  }
   return sk_proc_by_pid(Hpid[h]);
 }
 
@@ -604,11 +613,38 @@ static long do_call(jv *c, jv **extra)
       reproc_options op = mk_options(j_get(c, "o"), h, &inbuf);
       const char **argv = strarr(j_get(c, "argv"));
       sink_h = h;
+      pending_term[h] = (int) j_int(c, "term", TERM_IGN);
       K->in_api = 1; r = reproc_run_ex(argv, op, out, err); K->in_api = 0;
       free(inbuf); free(argv);
     }
     jv *x = j_mkobj();
     j_put(x, "sinks", sinklog);
+    /* normalised summary per sink: [calls, data bytes, closing calls]; protocol-order errors set bad */
+    {
+      long cnt[3][3] = { { 0 } };
+      int seen_close[3] = { 0, 0, 0 };
+      for (int i = 0; i < sinklog->n; i++) {
+        jv *e = sinklog->a[i];
+        int id = (int) e->a[0]->i, tag = (int) e->a[1]->i; long sz = e->a[2]->i;
+        if (cnt[id][0] == 0) { if (tag != REPROC_STREAM_IN || sz != 0) rbad = 1; }
+        else {
+          int want = same ? tag : (id == 1 ? REPROC_STREAM_OUT : REPROC_STREAM_ERR);
+          if (tag != want || (tag != REPROC_STREAM_OUT && tag != REPROC_STREAM_ERR)) rbad = 1;
+          if (seen_close[same ? tag : id]) rbad = 1;      /* nothing may follow a stream's closing call */
+          if (sz == 0) { cnt[id][2]++; seen_close[same ? tag : id] = 1; } else cnt[id][1] += sz;
+        }
+        cnt[id][0]++;
+      }
+      int f1 = so.fail_at > 0 && so.calls >= so.fail_at, f2 = se.fail_at > 0 && se.calls >= se.fail_at;
+      jv *ds = j_mkarr();
+      for (int id = 1; id <= 2; id++) {
+        jv *t = j_mkarr();
+        int skip = (id == 1 && !f1 && f2) || (id == 2 && f1);
+        for (int q = 0; q < 3; q++) j_push(t, j_mkint(skip ? -1 : cnt[id][q]));
+        j_push(ds, t);
+      }
+      j_put(x, "dsum", ds);
+    }
     j_put(x, "bad", j_mkint(rbad));
     const char *k1 = sp && sp->n > 0 ? sp->a[0]->a[0]->s : "rec";
     const char *k2 = sp && sp->n > 1 ? sp->a[1]->a[0]->s : "rec";
@@ -734,6 +770,7 @@ static void run_script(jv *s)
       }
       if (ret && !strcmp(j_str(ret, "e", ""), "ret")) {
         pos++;
+        jv *badkeys = NULL, *firstexp = NULL;
         for (int i = 0; i < ret->n; i++) {
           const char *key = ret->k[i];
           if (!strcmp(key, "e")) continue;
@@ -745,7 +782,14 @@ static void run_script(jv *s)
             jv *alts = j_get(exp, "any"); ok = 0;
             for (int q = 0; q < alts->n; q++) if (j_eq(alts->a[q], obs)) ok = 1;
           } else ok = j_eq(exp, obs);
-          if (!ok) diverge("mismatch", key, exp, obs_all(st, r, extra));
+          if (!ok) { if (!badkeys) { badkeys = j_mkarr(); firstexp = j_mkobj(); } j_push(badkeys, j_mkstr(key)); j_put(firstexp, key, exp); }
+        }
+        if (badkeys) {
+          /* all keys of one return are one simultaneous observation: report every differing key */
+          jv *o = obs_all(st, r, extra);
+          for (int i = 0; i < badkeys->n; i++) j_put(o, badkeys->a[i]->s, obs_key(badkeys->a[i]->s, st, r, extra));
+          cur_keys = badkeys;
+          diverge("mismatch", badkeys->a[0]->s, firstexp, o);
         }
       }
       continue;
@@ -767,7 +811,7 @@ static void run_line(char *line, int idx)
 {
   const char *err;
   j_reset();
-  trace = NULL; cur_call = NULL;
+  trace = NULL; cur_call = NULL; cur_keys = NULL;
   if (!strncmp(line, "<<\"BEH\", \"", 10)) {
     /* TLC PrintT of <<"BEH", ToJson(hist)>>: a TLA+ string literal; undo its escaping in place */
     char *o = line, *q = line + 10;
